@@ -13,8 +13,8 @@ import (
 	"github.com/bolkedebruin/rdpgw/cmd/rdpgw/identity"
 )
 
-//vp:property C07 C01 C03
-//vp:bounds one legacy tunnel of client alice (RDG_OUT_DATA then RDG_IN_DATA, connection id "conn-1", full set-up, one DATA packet, then the client drops; its host has one chunk for the client); between the two requests (at = 0) or while the packet loop waits for its at-th packet (at = 1..5) a third request with the same connection id arrives from another address, authenticated as another user (bob) or as alice again: a second legacy RDG_OUT_DATA, a websocket upgrade (handshake, tunnel-create, then drops), a second RDG_IN_DATA (handshake, then drops; not at 0, where it would simply BE the tunnel's inbound connection), or an RDG_OUT_DATA request with only one of the two upgrade headers (Upgrade: websocket without Connection: upgrade, or the reverse), which cannot be upgraded
+//vp:property C07 C01 C03 C11
+//vp:bounds one legacy tunnel of client alice (RDG_OUT_DATA then RDG_IN_DATA, connection id "conn-1", full set-up, one DATA packet, then the client drops; its host has one chunk for the client); between the two requests (at = 0) or while the packet loop waits for its at-th packet (at = 1..5) a third request with the same connection id arrives from another address, authenticated as another user (bob) or as alice again: a second legacy RDG_OUT_DATA, a websocket upgrade (handshake, tunnel-create, then drops), a second RDG_IN_DATA (handshake, then drops; not at 0, where it would simply BE the tunnel's inbound connection), a websocket upgrade whose Connection header is a token list ("keep-alive, Upgrade"), or an RDG_OUT_DATA request with only one of the two upgrade headers (Upgrade: websocket without Connection: upgrade, or the reverse), which cannot be upgraded
 //vp:assume one cooperative schedule per choice of `at` (the third request is served in full at that moment); the relay goroutine runs whenever the packet loop waits for the client; the token callback notes on the tunnel of its context who presented the token (as the security package's callback does)
 //vp:reach ended third-served
 func VP_C07_live_takeover() {
@@ -41,6 +41,9 @@ func VP_C07_live_takeover() {
 		if hdrs&2 != 0 {
 			hdr["Upgrade"] = []string{"websocket"}
 		}
+		if hdrs&4 != 0 {
+			hdr["Connection"] = []string{"keep-alive, Upgrade"} // a token list, as proxies and some clients send it
+		}
 		return identity.AddToRequestCtx(id, &http.Request{Method: method, Header: hdr})
 	}
 	out1 := &vpTransport{}
@@ -49,7 +52,7 @@ func VP_C07_live_takeover() {
 	third := vpScript(2, 0) // what the third connection sends if it is read from: handshake, tunnel-create, then it drops
 	vpBackendChunk = []byte{0x5A, 0x5B}
 	vpAssume(!vpBool("dialfail1")) // the host is reachable
-	kind := vpIntRange("third-request-kind", 0, 4) // 0 legacy OUT, 1 websocket upgrade, 2 legacy IN, 3 / 4 half an upgrade
+	kind := vpIntRange("third-request-kind", 0, 5) // 0 legacy OUT, 1 websocket upgrade, 2 legacy IN, 3 / 4 half an upgrade, 5 websocket upgrade whose Connection header is a token list
 	at := vpIntRange("third-request-arrives-before-packet", 0, 5)
 	vpAssume(!(at == 0 && kind == 2))
 	served := false
@@ -68,6 +71,9 @@ func VP_C07_live_takeover() {
 			g.HandleGatewayProtocol(w, mk(idB, MethodRDGOUT, 2))
 		case 4:
 			g.HandleGatewayProtocol(w, mk(idB, MethodRDGOUT, 1))
+		case 5:
+			vpNextTransportFor(third)
+			g.HandleGatewayProtocol(&vpHTTPW{hdr: http.Header{}}, mk(idB, MethodRDGOUT, 2|4))
 		}
 	}
 	inner := in1.gen
@@ -114,12 +120,14 @@ func VP_C07_live_takeover() {
 	if live != nil {
 		vpAssert(noted[live] == "alice@10.0.0.1", "another-connections-callbacks-do-not-see-the-live-tunnel")
 	}
+	// when everything has ended, the live tunnel's connections are closed (nobody else would close them)
+	vpAssert(out1.closed && in1.closed, "live-tunnels-own-connections-are-closed-when-it-has-ended")
 	// the third connection gets nothing of the live tunnel: no packet at all for a legacy request (it has
 	// no packet loop of its own), at most the answers to its own packets for a websocket
 	for _, p := range third.out {
 		vpAssert(!(len(p) >= 2 && p[0] == 0xA), "third-connection-receives-nothing-of-the-live-tunnels-host-stream")
 	}
-	if kind == 1 {
+	if kind == 1 || kind == 5 {
 		vpAssert(len(third.out) <= 2, "websocket-connection-receives-only-answers-to-its-own-packets")
 	} else {
 		vpAssert(len(third.out) == 0, "further-legacy-connection-receives-nothing-of-the-live-tunnel")
